@@ -58,6 +58,14 @@ Theorem C14_radd_is_add : forall negpow inv spow ks c ka sh d,
   py_binop negpow inv spow Add (Num ks c) (Arr ka sh d) = py_binop negpow inv spow Add (Arr ka sh d) (Num ks c).
 Proof. exact radd_is_add. Qed.
 
+(* single-element arrays are outside the property's quantifier; as right operand of *, / and ^ they act as the number they hold *)
+Theorem C14_numberlike_acts_as_scalar : forall negpow inv spow op ks shs ds ko sho d2,
+  op = Mul \/ op = Div \/ op = Pow ->
+  proper (Arr ks shs ds) -> sprod sho = 1%nat ->
+  py_binop negpow inv spow op (Arr ks shs ds) (Arr ko sho d2)
+  = py_binop negpow inv spow op (Arr ks shs ds) (Num ko (item d2)).
+Proof. exact numberlike_acts_as_scalar. Qed.
+
 (* the kernels named by la_value are the textbook definitions, entry by entry *)
 Theorem C14_elementwise_entry : forall (f : C -> C -> C) l1 l2 i, (i < length l1)%nat -> (i < length l2)%nat ->
   nth i (map2 f l1 l2) c0 = f (nth i l1 c0) (nth i l2 c0).
